@@ -267,27 +267,53 @@ def in_bounds(a, facts, off, size, total):
 
 
 def check_const_transmute(ctx, cfg, rule="C01.T"):
-    """Premise of every by-value reinterpretation: const_transmute reads the union only under
-    size_of::<A>() == size_of::<B>() and panics otherwise; the value moved in is the parameter."""
+    """Premise of every by-value reinterpretation, decided by byte provenance on const_transmute's own body: every return path yields
+    exactly the bytes of the parameter (all of them, offset 0) and is taken only under size_of::<A>() == size_of::<B>(); every panic exit
+    is taken only under a size mismatch; the parameter is moved (never dropped afterwards)."""
+    from .segmap import Engine, same_map, path_calls
+    from .typestate import has_generic
     key = "const_transmute"
     b = ctx.body(cfg, key, rule)
     if b is None:
         return False
-    a = ctx.analysis(cfg, key)
+    a = ctx.analysis_inl(cfg, key, split=True, tag="ct")
     te = a.tenv
     A = {"k": "param", "n": b["generics"][0]["n"]}
     B = {"k": "param", "n": b["generics"][1]["n"]}
     sa, sb = te.size(A), te.size(B)
-    unions = [g for g in a.aggregates if isinstance(g["kind"], tuple) and g["kind"][0] == "adt" and g["kind"][1].endswith("Union")]
-    ok = len(unions) == 1 and a.prove(unions[0]["facts"], "Eq", sa, sb) and unions[0]["ops"] == (("V", "arg", 1),)
+    problems = []
+    for r in a.returns:
+        if not a.prove(r["facts"], "Eq", sa, sb):
+            problems.append("a return path is taken without size_of A == size_of B (%s)" % fstr(r["facts"]))
+            continue
+        calls = path_calls(a, r)
+        if calls is None:
+            problems.append("return path not unique")
+            continue
+        facts = set(r["facts"])
+        for c in calls:
+            facts |= set(c.facts)
+        eng = Engine(a, facts)
+        if not eng.replay(calls):
+            problems.append("provenance not decided: %s" % eng.fail)
+            continue
+        pv = eng.prov(r["val"], B)
+        if pv is None:
+            problems.append("provenance of the result unknown (%s)" % (eng.fail or vstr(r["val"])))
+        elif not same_map(eng, pv[0], [(sa, ("arg", 1), Poly.const(0))]):
+            problems.append("the result is made of %r, not of the whole parameter" % (pv[0],))
+    if not a.returns:
+        problems.append("no return path")
     pan = [c for c in a.calls if c.fn.startswith("core::panicking::")]
     okp = bool(pan) and all(a.prove(c.facts, "Ne", sa, sb) for c in pan)
-    # the union is repr(C) with both fields at offset 0 (ADT facts)
-    u = [x for p, x in ctx.db(cfg).adts.items() if p.endswith("const_transmute::Union")]
-    oku = len(u) == 1 and u[0]["repr"]["c"] and u[0]["kind"] == "Union" and len(u[0]["fields"]) == 2
-    st = PROVED if (ok and okp and oku) else REFUTED
-    ctx.ob(rule, key, st, "union built from the parameter only under %s (required size_of A == size_of B): %s; panic exits under size mismatch: %s; union is repr(C) with two fields: %s" % (
-        fstr(unions[0]["facts"]) if unions else "-", ok, okp, oku), at=b["at"], cfg=cfg)
+    if not okp:
+        problems.append("a panic exit is reachable with equal sizes, or there is no size guard at all")
+    dropped = [d for d in a.drops if not d["cleanup"] and not d["place"]["p"] and d["place"]["l"] == 1 and has_generic(d["ty"])]
+    if dropped:
+        problems.append("the parameter is dropped on the normal path although its bytes were moved into the result")
+    st = PROVED if not problems else REFUTED
+    ctx.ob(rule, key, st, "; ".join(sorted(set(problems))) if problems else
+           "every return path is taken only under size_of A == size_of B and yields exactly the parameter's bytes; panic exits only under a size mismatch; the parameter is moved, not dropped", at=b["at"], cfg=cfg)
     return st == PROVED
 
 
